@@ -264,7 +264,7 @@ CaseObs runCase(const CaseSpec& s) {
 
 // ------------------------------------------------------------------ scripted interleavings
 J ScriptSpec::json() const {
-  const char* kn[] = {"?", "push-after-shrink", "ringbulk-after-join", "ringbulk-after-stop", "placed-after-stop", "fq-after-resize0"};
+  const char* kn[] = {"?", "push-after-shrink", "ringbulk-after-join", "ringbulk-after-stop", "placed-after-stop", "fq-after-resize0", "shrink-before-ringcount-load"};
   return J().kv("script", kn[kind]).kv("N", N).kv("target", target).kv("count", count).kv("set", setKind).kv("via", via).kv("mult", mult).kv("realWait", realWait).kv("repeat", repeat);
 }
 
@@ -284,7 +284,7 @@ bool waitAllParked(int n) {
 // index >= the published ring count non-empty, and no progress over 4000 polls.
 template <typename TS>
 bool boundedWait(TS& ts, ThreadPool& pool, ScriptObs& so) {
-  long stable = 0, lastFin = -1;
+  long stable = 0, lastFin = -1, gone = 0;
   for (;;) {
     bool ok;
     {
@@ -298,8 +298,17 @@ bool boundedWait(TS& ts, ThreadPool& pool, ScriptObs& so) {
     bool nothingRunning = g.started.load(std::memory_order_relaxed) == fin;
     if (fin == lastFin && beyond > 0 && nothingRunning) ++stable;
     else stable = 0;
+    if (fin == lastFin && beyond == 0 && nothingRunning && pool.verifQueuedApprox() == 0) ++gone;
+    else gone = 0;
     lastFin = fin;
     if ((so.polls & 511) == 511) vrt::progress(); // bounded by the poll count
+    if (gone >= 8000) {
+      // outstanding tasks that sit in no queue tier and are not running can never complete: the set's wait and
+      // destructor would spin for ever, so the process ends here
+      vrt::violation("task-set tasks are outstanding but sit in no queue tier and none is running: they were dropped, wait() can never return",
+                     J().kv("outstanding", static_cast<long>(ts.verifOutstanding())).kv("polls", so.polls), "dropped");
+      _exit(5);
+    }
     if (stable >= 4000) {
       so.stranded = true;
       so.strandedTasks = static_cast<long>(ts.verifOutstanding());
@@ -350,8 +359,9 @@ ScriptObs runScript(const ScriptSpec& s) {
     so.why = why;
   };
 
-  if (s.kind == SK_PUSH_AFTER_SHRINK) {
-    vrt::gateArm(V::kPoolBulkRingsAfterCount);
+  if (s.kind == SK_PUSH_AFTER_SHRINK || s.kind == SK_SHRINK_BEFORE_RINGCOUNT) {
+    const int psite = s.kind == SK_PUSH_AFTER_SHRINK ? static_cast<int>(V::kPoolBulkRingsAfterCount) : static_cast<int>(V::kTaskSetBulkAfterRingTest);
+    vrt::gateArm(psite);
     std::thread prod([&]() {
       tl.role = 1;
       if (s.setKind == 1) {
@@ -364,7 +374,7 @@ ScriptObs runScript(const ScriptSpec& s) {
         RingProducer<ConcurrentTaskSet>::run(*pool, ts, mon, s.count, s.realWait, phase, so);
       }
     });
-    bool arrived = vrt::gateWaitArrived(V::kPoolBulkRingsAfterCount, 20000);
+    bool arrived = vrt::gateWaitArrived(psite, 20000);
     if (!arrived) fail("producer never reached the ring-count site (ring fast path not taken)");
     if (arrived) {
       ResizeScope r;
@@ -372,7 +382,7 @@ ScriptObs runScript(const ScriptSpec& s) {
       g.resizes.fetch_add(1, std::memory_order_relaxed);
       vrt::progress();
     }
-    vrt::gateOpen(V::kPoolBulkRingsAfterCount);
+    vrt::gateOpen(psite);
     while (phase.load(std::memory_order_acquire) < 1) usleep(50);
     phase.store(2, std::memory_order_release);
     // rescue on request
@@ -499,6 +509,14 @@ ScriptObs runScript(const ScriptSpec& s) {
       if (s.via == 0) {
         subPoolFQ(*pool, mkTask(b, A_NONE, F_FQ, 0, 0, nullptr, kNoParent, 0));
         phase.store(1, std::memory_order_release);
+      } else if (s.via == 2) {
+        // plain schedule(): the first call parks inside forceEnqueue, the later ones see the zero-thread pool
+        subPool(*pool, mkTask(b, A_NONE, 0, 0, 0, nullptr, kNoParent, 0));
+        for (int i = 1; i < s.count; ++i) {
+          uint32_t b2 = newIds(1);
+          subPool(*pool, mkTask(b2, A_NONE, 0, 0, 0, nullptr, kNoParent, 0));
+        }
+        phase.store(1, std::memory_order_release);
       } else {
         mon.kind = 1;
         {
@@ -522,7 +540,7 @@ ScriptObs runScript(const ScriptSpec& s) {
     }
     vrt::gateOpen(V::kPoolForceEnqueueAfterSizeTest);
     prod.join();
-    if (arrived && s.via == 0) {
+    if (arrived && s.via != 1) {
       // the submit call has returned, nobody is calling into the pool, the pool has no thread
       uint32_t id = theId.load(std::memory_order_relaxed);
       long stable = 0;
@@ -543,6 +561,8 @@ ScriptObs runScript(const ScriptSpec& s) {
   if (s.checkAccounting && so.reached) accountingCheck(*pool, so.c);
   so.drainedByResize = g.clsCount[C_H_RESIZE].load();
   vrt::progress();
+  long dtorBefore = g.clsCount[C_H_DTOR].load();
+  (void)dtorBefore;
   g.poolDying.store(true, std::memory_order_relaxed);
   ++tl.inDtor;
   delete pool;
@@ -551,6 +571,7 @@ ScriptObs runScript(const ScriptSpec& s) {
   vrt::hooksReset();
   vrt::setStateDumper(nullptr);
   collect(so.c);
+  so.ranInDtor = so.c.cls[C_H_DTOR];
   g.pool = nullptr;
   monRemember();
   return so;
